@@ -106,6 +106,48 @@ def same_numbers(a, b):
     return True
 
 
+# Programs outside the generator's language, compared target against target like the float programs: regressions
+# of repaired defects and the witnesses of recorded findings (keys C02|witness|<name>).
+TEXT_PROGRAMS = {
+    "literal_spellings": """import "std/io";
+fn main() {
+    let a: i32 = 010;
+    let b: i32 = 0o17;
+    let c: i32 = 0x1F;
+    let d: i32 = 0b101;
+    let e: i32 = -007;
+    let f: i64 = 0000123456789012;
+    io::Println(a);
+    io::Println(b);
+    io::Println(c);
+    io::Println(d);
+    io::Println(e);
+    io::Println(f);
+}
+""",
+    "mixed_width_compare": """import "std/io";
+fn main() {
+    let a: i32 = 5;
+    let b: i64 = 7;
+    io::Println(a < b);
+}
+""",
+    "wasm_memory_not_grown": """import "std/io";
+type P struct { .A: i64, .B: i64, .C: i64, .D: i64 };
+fn main() {
+    let i: i32 = 0;
+    let acc: i64 = 0;
+    while i < 40000 {
+        let p: P = { .A = 1, .B = 2, .C = 3, .D = 4 };
+        acc = acc + p.A + p.D;
+        i = i + 1;
+    }
+    io::Println(acc);
+}
+""",
+}
+
+
 def run(tier, seed, replay=None):
     chk = core.Check("C02", tier, seed, "translation_validation")
     env = Env()
@@ -223,6 +265,19 @@ def run(tier, seed, replay=None):
         if r1["cls"] != r2["cls"] or not same_numbers(as_numbers(r1["out"].split("\n")), as_numbers(r2["out"].split("\n"))):
             chk.fail("C02|float|%s" % name, "native prints %r (%s), wasm %r (%s)" % (r1["out"][:200], r1["cls"], r2["out"][:200], r2["cls"]),
                      {"name": name, "program": text})
+    n_text = 0
+    for name, text in TEXT_PROGRAMS.items():
+        (o1, r1), (o2, r2) = semrun.build_and_run(env, text, "native"), semrun.build_and_run(env, text, "wasm")
+        if o1["cls"] != "ACCEPT" or o2["cls"] != "ACCEPT":
+            stats["void"] += 1
+            continue
+        n_text += 1
+        if r1["cls"] != r2["cls"] or r1["out"] != r2["out"]:
+            chk.fail("C02|witness|%s" % name, "native prints %r (%s), wasm %r (%s %s)" % (r1["out"][:120], r1["cls"], r2["out"][:120], r2["cls"], r2["err"][:100]),
+                     {"name": name, "program": text})
+        else:
+            stats["agree"] += 1
+    chk.cov["text_programs"] = n_text
     for a in nat[:1] + nat[-1:]:
         chk.sample({"name": a["name"], "source": a["text"][:600], "native": a.get("out", [])[:5]})
     chk.cov.update({
